@@ -43,7 +43,7 @@ func main() {
 		must(raft.VerifSetState(n.R, raft.VerifNodeState{State: raft.Follower, Configuration: conf,
 			Entries: []*raft.LogEntry{raft.NewLogEntry(1, 1, data, raft.ConfigurationEntry)}, ContactAge: 10 * sim.Tick}))
 	}
-	quiet := func() { must(sim.WaitQuiescent(5 * time.Second)) }
+	quiet := func() { must(sim.WaitQuiescent(30 * time.Second)) }
 	tick := func() {
 		for _, id := range ids {
 			raft.VerifShiftClock(c.Nodes[id].R, 10*sim.Tick)
